@@ -82,6 +82,7 @@ def table_for(cfg):
         conf['sbl'] = cfg[3]
         fields.append({'move': None, 'body': ('elem', ('leaf', ('dregex', cfg[1], cfg[2], b'')))})
     else:
+        conf['sbl'] = cfg[1] if len(cfg) > 1 else None
         fields.append({'move': None, 'body': ('elem', ('leaf', ('deos', b'')))})
     conf['fields'] = fields
     return {0: conf}
@@ -102,7 +103,8 @@ def run(tier, seed, rng):
     for alts in rx:
         for sbl in (None, 2, 3):
             cfgs.append(('regex', alts, True, sbl))
-    cfgs.append(('eos',))
+    for sbl in (None, 0, 2, 3):
+        cfgs.append(('eos', sbl))      # read-to-end does not honour the search window
     for n in range(-2, 6):
         cfgs.append(('sized', n, 'const'))
     for how in ('field', 'expr', 'lambda'):
